@@ -22,6 +22,7 @@ CHECKS = {
     "C06": ("3/C06", "symbolic execution of the evaluator-request layer with a distinct solver variable per evaluator number; label/identity obligations and garbage-invariance by self-composition decided by z3", ""),
     "C09": ("3/C09", "symbolic execution of EnsembleOptimizer/EnsembleEvaluator with a scripted optimizer, every mask enumerated and the fixed variables' values symbolic; identity obligations decided by z3", ""),
     "C08": ("3/C08", "symbolic execution of SciPyOptimizer construction/start with scipy.optimize replaced by recorders; feasibility-equivalence and Jacobian-sign obligations over symbolic bounds, values and rows decided by z3", ""),
+    "C07": ("3/C07", "symbolic execution of the callables SciPy would receive under a request script whose steps (which callable, which pool point) are solver variables; returned values compared with the per-point symbols; z3", ""),
     "C10": ("3/C10", "symbolic execution of fix_perturbations + _perturb_variables/_apply_bounds through EnsembleEvaluator.calculate; linear/bilinear obligations decided by z3", ""),
     "C01": ("3/C01", "symbolic execution of EnsembleEvaluator.calculate on z3-backed arrays; per-path NRA obligations decided by z3 (cvc5 cross-check)", ""),
 }
